@@ -282,6 +282,13 @@ static void s_parse_scheme(struct uri_parser *parser, struct aws_byte_cursor *st
         return;
     }
 
+    /* a scheme contains neither '/' nor '?': a colon after one of them belongs to the path or the query */
+    const size_t colon_offset = (size_t)(location_of_colon - str->ptr);
+    if (memchr(str->ptr, '/', colon_offset) || memchr(str->ptr, '?', colon_offset)) {
+        parser->state = ON_AUTHORITY;
+        return;
+    }
+
     /* Ensure location_of_colon is not the last character before checking *(location_of_colon + 1) */
     if ((size_t)(location_of_colon - str->ptr) + 1 >= str->len || *(location_of_colon + 1) != '/') {
         /* make sure we didn't just pick up the port by mistake */
